@@ -34,6 +34,9 @@ var (
 	leakMsgs []string
 )
 
+// noLeakCheck (-extra noleak) skips the GC-based leak report collection.
+var noLeakCheck bool
+
 func takeLeaks() []string {
 	leakMu.Lock()
 	defer leakMu.Unlock()
@@ -46,6 +49,9 @@ func takeLeaks() []string {
 // the leak reports.  A sentinel object with its own finalizer tells when the
 // finalizer goroutine has processed the queue of this GC cycle.
 func collectLeaks() []string {
+	if noLeakCheck {
+		return nil
+	}
 	for round := 0; round < 2; round++ {
 		done := make(chan struct{})
 		func() {
@@ -177,6 +183,7 @@ func (e *env) do(what string, f func()) bool {
 func main() {
 	cfg := common.ParseFlags()
 	rec := common.NewRecorder(cfg)
+	noLeakCheck = strings.Contains(cfg.Extra, "noleak")
 	capnp.SetClientLeakFunc(func(msg string) {
 		leakMu.Lock()
 		leakMsgs = append(leakMsgs, msg)
@@ -202,6 +209,7 @@ func main() {
 			rec.Inconclusive("unknown mode " + cfg.Mode)
 		}
 		rpcbench.Uninstall()
+		rec.Max("max_goroutines_after_case", int64(runtime.NumGoroutine()))
 		if e.dead {
 			rec.AbortBatch(i + 1)
 		}
